@@ -22,3 +22,5 @@ def check(repo, rep, tier):
     from .. import rules_extra as rx
     rep.run(rx.rule_stages_per_call, cm, em, rep, 'C18.N5')
     rep.run(rx.rule_no_import_time_container_mutated, cm, rep, 'C18.N6')
+    # the environment (locale) is an ambient input too: it must not choose how the bytes of a source are read
+    rep.run(re_.rule_codecs_strict, cm, rep, 'C18.N7')
